@@ -61,10 +61,14 @@ spec fn flushed_to(ps: Seq<Piece>, a: int) -> int { if ps.len() > 0 { ps.last().
 //@header fn add_interval_to_summary(overlap: &mut VList, summary: &mut Option<Summary>, item_start: u32, item_end: u32, next_start_opt: Option<u32>, Ghost(ents): Ghost<Seq<(u32, u32)>>, Ghost(d0): Ghost<Seq<nat>>) -> (out: Ghost<(Seq<nat>, Seq<Piece>)>)
 //@rule R5 min=4
 //@rule R6 min=2
-//@sub /overlap\s*\.get_first\(\)\s*\.map\(\|f\| f\.start == item_start\)\s*\.unwrap_or\(true\)/ => (overlap@.len() > 0 ==> overlap@[0].start == item_start)
-//@sub /overlap\s*\.get_last\(\)\s*\.map\(\|o\| o\.end >= item_start\)\s*\.unwrap_or\(true\)/ => (overlap@.len() > 0 ==> overlap@.last().end >= item_start)
+//@sub /overlap\s*\.get_first\(\)\s*\.map\(\|f\| f\.start (==|!=|>=|<=|>|<) item_start\)\s*\.unwrap_or\((true|false)\)/ => OPT_OR_\2(overlap@.len() > 0, overlap@[0].start \1 item_start)
+//@sub /overlap\s*\.get_last\(\)\s*\.map\(\|o\| o\.end (==|!=|>=|<=|>|<) item_start\)\s*\.unwrap_or\((true|false)\)/ => OPT_OR_\2(overlap@.len() > 0, overlap@.last().end \1 item_start)
+//@sub /OPT_OR_true\(([^,]*), ([^()]*(?:\(\))?[^()]*)\)/ => (\1 ==> \2) min=0
+//@sub /OPT_OR_false\(([^,]*), ([^()]*(?:\(\))?[^()]*)\)/ => (\1 && \2) min=0
 //@sub /overlap\.get_last\(\)\.map\(\|o\| o\.end\)/ => last_end_of(overlap)
-//@sub /overlap\s*\.get_first\(\)\s*\.map\(\|f\| f\.start < next_start\)\s*\.unwrap_or\(false\)/ => first_starts_before(overlap, next_start)
+//@sub /overlap\s*\.get_first\(\)\s*\.map\(\|f\| f\.start (==|!=|>=|<=|>|<) next_start\)\s*\.unwrap_or\((true|false)\)/ => FIRST_START{\1}{\2}(overlap, next_start)
+//@sub /FIRST_START\{<\}\{false\}\(overlap, next_start\)/ => first_starts_before(overlap, next_start) min=0
+//@sub /FIRST_START\{([^}]*)\}\{(\w+)\}\(overlap, next_start\)/ => (match overlap.get_first() { Some(f) => f.start \1 next_start, None => \2 }) min=0
 //@sub /u32::max_value\(\)/ => u32::MAX min=0
 //@sig
     requires
